@@ -92,13 +92,15 @@ def validateTracklets (nl : List (α × L)) (es : List (α × α)) : Bool :=
   (trackletErrors nl es).isEmpty
 
 /-- `geff.validate.data._nodes_with_id`: nodes whose id is flagged missing are dropped.
-`none` = no missing mask.  numpy raises IndexError when the mask length differs. -/
+`none` = no missing mask.  numpy raises IndexError when the mask length differs — except for a mask
+of length 0, which numpy accepts against an array of ANY length and which selects nothing (an empty
+boolean index is treated as an empty integer index). -/
 def nodesWithId (nodes : List α) (values : List L) (missing : Option (List Bool)) :
     Option (List (α × L)) :=
   match missing with
   | none => some (nodes.zip values)
   | some m =>
-    if m.length = nodes.length ∧ m.length = values.length then
+    if m.length = 0 ∨ (m.length = nodes.length ∧ m.length = values.length) then
       some (((nodes.zip values).zip m).filterMap fun p => if p.2 then none else some p.1)
     else none
 
